@@ -1,9 +1,13 @@
 mod prog;
 mod interp;
+#[cfg(not(desync_verif_real))]
 mod sched;
 
 use prog::*;
+#[cfg(not(desync_verif_real))]
 use sched::*;
+#[cfg(desync_verif_real)]
+pub enum Kind { Rnd, Sticky(u64), Guided(Vec<usize>) }
 use std::io::Write;
 use std::sync::{Arc, Mutex};
 
@@ -11,6 +15,7 @@ use std::sync::{Arc, Mutex};
 pub struct ExecResult { pub status: String, pub detail: String, pub schedule: Vec<usize>, pub steps: usize, pub nevents: usize, pub ops: usize, pub errors: Vec<String> }
 
 /// One controlled execution of one program under one schedule
+#[cfg(not(desync_verif_real))]
 pub fn execute(prog: &Program, kind: Kind, seed: u64, fail_fast: bool, touch_yield: bool, logfile: Option<&str>, max_steps: usize) -> ExecResult {
     let s = Sched::new(kind, seed);
     let trace = s.trace.clone();
@@ -55,6 +60,45 @@ pub fn execute(prog: &Program, kind: Kind, seed: u64, fail_fast: bool, touch_yie
     ExecResult { status, detail, steps: schedule.len(), schedule, nevents: events.len(), ops: nops, errors }
 }
 
+
+/// One execution of one program on REAL threads (no schedule control; used for the panic scenarios, which the controlled
+/// runtime cannot host because it treats an unwinding task as a failed test). A watchdog turns a hang into a report and
+/// ends the process, so the caller runs one execution per process.
+#[cfg(desync_verif_real)]
+pub fn execute(prog: &Program, _kind: Kind, seed: u64, _fail_fast: bool, touch_yield: bool, logfile: Option<&str>, _max_steps: usize) -> ExecResult {
+    desync::verif::set_logging(logfile.is_some());
+    desync::verif::new_execution();
+    let ctx = interp::make_ctx(prog, false, touch_yield);
+    let text = prog.text();
+    let ctx2 = ctx.clone();
+    std::thread::spawn(move || {
+        std::thread::sleep(std::time::Duration::from_millis(8000));
+        let errs = ctx2.errors.lock().map(|e| e.clone()).unwrap_or_default();
+        let detail = if errs.is_empty() { "no thread made progress for 8 s (blocked silently)".to_string() } else { errs[0].clone() };
+        println!("RES\t0\t0\t{}\t{}\t0\t0\t{}\t{}", seed, if errs.is_empty() { "deadlock" } else { "monitor" }, text, detail);
+        println!("DONE\t1\t1");
+        std::process::exit(3);
+    });
+    let r = std::panic::catch_unwind(std::panic::AssertUnwindSafe(|| interp::run_program(&ctx)));
+    let errors: Vec<String> = ctx.errors.lock().map(|e| e.clone()).unwrap_or_default();
+    let nops = ctx.ops.lock().map(|o| o.len()).unwrap_or(0);
+    let (status, detail) = match r {
+        Ok(()) => if errors.is_empty() { ("ok".to_string(), String::new()) } else { ("monitor".to_string(), errors[0].clone()) },
+        Err(e) => {
+            let msg = if let Some(s) = e.downcast_ref::<String>() { s.clone() } else if let Some(s) = e.downcast_ref::<&str>() { s.to_string() } else { "panic".to_string() };
+            if !errors.is_empty() { ("monitor".to_string(), errors[0].clone()) } else { ("panic".to_string(), msg.lines().next().unwrap_or("").to_string()) }
+        }
+    };
+    let events = desync::verif::take_log();
+    if let Some(path) = logfile {
+        let mut f = std::io::BufWriter::new(std::fs::File::create(path).unwrap());
+        writeln!(f, "# prog {}", prog.text()).unwrap();
+        writeln!(f, "# status {} {}", status, detail).unwrap();
+        for e in events.iter() { writeln!(f, "{}\t{}\t{}\t{}\t{}", e.task, e.kind, e.class, e.id, e.snap).unwrap(); }
+    }
+    ExecResult { status, detail, steps: 0, schedule: vec![], nevents: events.len(), ops: nops, errors }
+}
+
 fn arg<'a>(args: &'a [String], name: &str) -> Option<&'a str> {
     args.iter().position(|a| a == name).and_then(|i| args.get(i + 1)).map(|s| s.as_str())
 }
@@ -79,20 +123,23 @@ fn main() {
     let stop_first = flag(&args, "--stop-first");
     match cmd {
         "gen" => {
-            let p = profile(arg(&args, "--profile").unwrap_or("core")).expect("profile");
+            let pname = arg(&args, "--profile").unwrap_or("core");
             let mut r = Rng::new(seed);
-            for _ in 0..count { println!("{}", generate(&p, &mut r).text()); }
+            if pname == "panic" { for _ in 0..count { println!("{}", generate_panic(&mut r).text()); } }
+            else { let p = profile(pname).expect("profile"); for _ in 0..count { println!("{}", generate(&p, &mut r).text()); } }
         }
         // run: programs from a profile (or from --progs file, one per line) x schedules
         "run" => {
             let progs: Vec<Program> = if let Some(f) = arg(&args, "--progs") {
                 std::fs::read_to_string(f).unwrap().lines().filter(|l| !l.trim().is_empty() && !l.starts_with('#')).map(|l| Program::parse(l).expect("parse")).collect()
             } else if let Some(t) = arg(&args, "--prog") { vec![Program::parse(t).expect("parse")] } else {
-                let p = profile(arg(&args, "--profile").unwrap_or("core")).expect("profile");
+                let pname = arg(&args, "--profile").unwrap_or("core");
                 let mut r = Rng::new(seed);
+                if pname == "panic" { (0..count).map(|_| generate_panic(&mut r)).collect::<Vec<_>>() } else {
+                let p = profile(pname).expect("profile");
                 let min_pool: usize = arg(&args, "--min-pool").and_then(|s| s.parse().ok()).unwrap_or(0);
                 let max_pool: usize = arg(&args, "--max-pool").and_then(|s| s.parse().ok()).unwrap_or(usize::MAX);
-                (0..count).map(|_| { let mut g = generate(&p, &mut r); g.pool = g.pool.max(min_pool).min(max_pool); g }).collect()
+                (0..count).map(|_| { let mut g = generate(&p, &mut r); g.pool = g.pool.max(min_pool).min(max_pool); g }).collect() }
             };
             if let Some(d) = &logdir { std::fs::create_dir_all(d).unwrap(); }
             let out = std::io::stdout();
